@@ -79,7 +79,7 @@ def _strategy(draw):
                        round(edge + draw(st.sampled_from([0.0, 1.5])), 2)]
     else:
         mass = gc.total_mass(spec)
-        target = round(edge + draw(st.sampled_from([0.0, 0.7, 1.3])), 2)
+        target = round(edge + draw(st.sampled_from([0.0, 0.7, 1.3])), 2)    # used again for the grid below
         opts["density"] = round(mass * 1.660541 / target ** 3, 4)
     if mixed or draw(st.integers(0, 3)) == 0:
         resn = sorted({r["resname"] for mt in spec["moltypes"] for r in mt["residues"]})
@@ -94,11 +94,20 @@ def _strategy(draw):
         opts["grid_spacing"] = draw(st.sampled_from([0.2, 0.5, 1.0]))
     if draw(st.integers(0, 3)) == 0:
         # the grid has to fit the box that is in effect (the input structure's box wins)
-        box = (spec["coords"]["box"] if spec.get("coords") else None) or opts.get("box") or [edge] * 3
+        dens_edge = [round(target - 0.02, 2)] * 3 if box_kind == "dens" else None
+        box = (spec["coords"]["box"] if spec.get("coords") else None) or opts.get("box") or dens_edge or [edge] * 3
         box = [min(a, b) for a, b in zip(box, opts.get("box") or box)] if spec.get("coords") else box
-        # distinct points of a 1 nm lattice (a grid with coinciding points cannot host all molecules)
-        lattice = [[0.5 + i, 0.5 + j, 0.5 + k] for i in range(int(box[0])) for j in range(int(box[1]))
-                   for k in range(int(box[2]))]
+        # distinct points of a 1 nm lattice (a grid with coinciding points cannot host all molecules); the
+        # lattice starts half a nm from the lower faces or is shifted so that its last points lie 0.1 nm
+        # below the upper faces
+        if draw(st.integers(0, 2)) == 0:
+            offs = [round((L - 0.1) - int(L - 0.1), 3) for L in box]
+        else:
+            offs = [0.5, 0.5, 0.5]
+        lattice = [[round(offs[0] + i, 3), round(offs[1] + j, 3), round(offs[2] + k, 3)]
+                   for i in range(int(box[0] - offs[0]) + 1) if offs[0] + i < box[0]
+                   for j in range(int(box[1] - offs[1]) + 1) if offs[1] + j < box[1]
+                   for k in range(int(box[2] - offs[2]) + 1) if offs[2] + k < box[2]]
         nmol = sum(c for _, c in spec["molecules"])
         npts = draw(st.integers(min(len(lattice), 3 * nmol + 5), min(len(lattice), 3 * nmol + 40)))
         opts["grid"] = draw(st.permutations(lattice))[:npts]
